@@ -10,7 +10,7 @@ ID = 'C12'
 LEVEL = 'exploration'
 RULE = ('Hypothesis draws an event matrix (1..200 events, 1..5 channels; uint8/16/32 big- or little-endian as '
         'the reader produces them, float32, float64; per-column kinds uniform / heavy ties / constant / '
-        'sorted), a container (raw sample, sample converted to RFI; each also as the plain array) and a '
+        'sorted), a container (raw sample, sample converted to RFI, to RFI then MEF; each also as the plain array) and a '
         'channel form (absent, position, name, mixed list in drawn order, single-element list); all ten '
         'statistics are evaluated and compared with pure-Python textbook definitions.  Non-trivial = float '
         '(converted) sample, or a list of >=2 channels in non-file order, or a tie in the mode.')
@@ -44,7 +44,7 @@ def _case(draw):
         sel = list(range(D))
     else:
         sel = [draw(st.integers(0, D - 1))]
-    return dict(spec=spec, container=draw(st.sampled_from(['raw', 'raw', 'rfi'])), form=form, sel=sel,
+    return dict(spec=spec, container=draw(st.sampled_from(['raw', 'raw', 'rfi', 'mef'])), form=form, sel=sel,
                 spell=[draw(st.booleans()) for _ in sel])
 
 
@@ -128,8 +128,10 @@ def check(case, obs):
     spec = case['spec']
     D = len(spec['widths'])
     d = build(spec)
-    if case['container'] == 'rfi':
+    if case['container'] in ('rfi', 'mef'):
         x = FlowCal.transform.to_rfi(d)
+        if case['container'] == 'mef':
+            x = FlowCal.transform.to_mef(x, [0], [lambda v: 2.5 * np.sign(v) * np.abs(v) ** 1.1], [0])
         cells = [[float(c) for c in row] for row in np.asarray(x).tolist()]
         ftype = 'f8'
     else:
@@ -156,7 +158,7 @@ def check(case, obs):
                    for r in refs if len(r['mode_counts']) > 1)
     if mode_tie:
         obs.label('mode_tie')
-    obs.nontrivial = (case['container'] == 'rfi' or (form == 'list' and len(sel) >= 2 and sel != sorted(sel))
+    obs.nontrivial = (case['container'] in ('rfi', 'mef') or (form == 'list' and len(sel) >= 2 and sel != sorted(sel))
                       or mode_tie)
     for stat in STATS:
         fn = getattr(FlowCal.stats, stat)
